@@ -35,6 +35,70 @@ pub enum Step {
         #[serde(default, skip_serializing_if = "std::ops::Not::not")]
         split: bool,
     },
+    /// The capacity of the file system that holds the data directory (a small tmpfs mounted for
+    /// histories that contain this step): from now on it has room for `free_pages` more 4 KiB pages
+    /// and `free_inodes` more files/directories than it holds at this moment; None = plenty.
+    /// A real full disk: whatever write, mkdir, create or rename needs more fails with ENOSPC.
+    Disk {
+        #[serde(default)]
+        free_pages: Option<u64>,
+        #[serde(default)]
+        free_inodes: Option<u64>,
+    },
+}
+
+const PLENTY_BYTES: u64 = 256 << 20;
+const PLENTY_INODES: u64 = 100_000;
+
+fn tmpfs_mount(target: &Path, remount: bool, bytes: u64, inodes: u64) -> Result<(), String> {
+    use std::ffi::CString;
+    use std::os::unix::ffi::OsStrExt;
+    let tgt = CString::new(target.as_os_str().as_bytes()).map_err(|e| e.to_string())?;
+    let src = CString::new("tmpfs").unwrap();
+    let data = CString::new(format!("size={bytes},nr_inodes={inodes},mode=0700")).unwrap();
+    let flags = if remount { libc::MS_REMOUNT } else { 0 };
+    let rc = unsafe { libc::mount(src.as_ptr(), tgt.as_ptr(), src.as_ptr(), flags, data.as_ptr() as *const libc::c_void) };
+    if rc == 0 {
+        Ok(())
+    } else {
+        Err(format!("mount({}{}): {}", target.display(), if remount { ", remount" } else { "" }, std::io::Error::last_os_error()))
+    }
+}
+
+pub fn tmpfs_umount(target: &Path) {
+    use std::ffi::CString;
+    use std::os::unix::ffi::OsStrExt;
+    if let Ok(tgt) = CString::new(target.as_os_str().as_bytes()) {
+        unsafe {
+            libc::umount2(tgt.as_ptr(), libc::MNT_DETACH);
+        }
+    }
+}
+
+/// (used pages, used inodes) of the file system holding `p`.
+fn fs_usage(p: &Path) -> Option<(u64, u64)> {
+    use std::ffi::CString;
+    use std::os::unix::ffi::OsStrExt;
+    let c = CString::new(p.as_os_str().as_bytes()).ok()?;
+    let mut st: libc::statfs = unsafe { std::mem::zeroed() };
+    if unsafe { libc::statfs(c.as_ptr(), &mut st) } != 0 {
+        return None;
+    }
+    Some(((st.f_blocks as u64).saturating_sub(st.f_bfree as u64), (st.f_files as u64).saturating_sub(st.f_ffree as u64)))
+}
+
+/// Can this process mount a tmpfs (needed for the full-disk fault)?
+pub fn can_mount(scratch: &Path) -> bool {
+    let probe = scratch.join("mount-probe");
+    if std::fs::create_dir_all(&probe).is_err() {
+        return false;
+    }
+    let ok = tmpfs_mount(&probe, false, 1 << 20, 100).is_ok();
+    if ok {
+        tmpfs_umount(&probe);
+    }
+    let _ = std::fs::remove_dir(&probe);
+    ok
 }
 
 #[derive(Serialize, Deserialize, Clone, Debug, PartialEq, Eq)]
@@ -145,8 +209,34 @@ pub fn run_history(ctx: &Ctx, h: &History, work: &Path, rotate: usize) -> Trace 
         trace.harness_errors.push(format!("wipe: {e}"));
         return trace;
     }
+    let own_disk = h.steps.iter().any(|s| matches!(s, Step::Disk { .. }));
+    if own_disk {
+        if let Err(e) = tmpfs_mount(&xdg.root, false, PLENTY_BYTES, PLENTY_INODES) {
+            trace.harness_errors.push(e);
+            return trace;
+        }
+    }
+    let mut disk_limited: Option<String> = None;
     for (i, step) in h.steps.iter().enumerate() {
         let child = match step {
+            Step::Disk { free_pages, free_inodes } => {
+                match fs_usage(&xdg.root) {
+                    Some((pages, inodes)) => {
+                        let bytes = free_pages.map(|f| (pages + f) * 4096).unwrap_or(PLENTY_BYTES).max(4096);
+                        let n = free_inodes.map(|f| inodes + f).unwrap_or(PLENTY_INODES).max(1);
+                        if let Err(e) = tmpfs_mount(&xdg.root, true, bytes, n) {
+                            trace.harness_errors.push(e);
+                        }
+                        disk_limited = if free_pages.is_some() || free_inodes.is_some() {
+                            Some(format!("pages+{},inodes+{}", free_pages.map(|f| f.to_string()).unwrap_or("inf".into()), free_inodes.map(|f| f.to_string()).unwrap_or("inf".into())))
+                        } else {
+                            None
+                        };
+                    }
+                    None => trace.harness_errors.push("statfs of the data file system failed".into()),
+                }
+                None
+            }
             Step::Fabricate { state } => {
                 if let Err(e) = dirstate::fabricate(&xdg, state, &ctx.reference) {
                     trace.harness_errors.push(format!("fabricate: {e}"));
@@ -175,9 +265,16 @@ pub fn run_history(ctx: &Ctx, h: &History, work: &Path, rotate: usize) -> Trace 
                 if s.repo.is_empty() {
                     s.repo = ctx.repo.clone();
                 }
-                let out = launcher.simnode(&xdg, work, &format!("s{i}"), &s, rotate);
+                let mut out = launcher.simnode(&xdg, work, &format!("s{i}"), &s, rotate);
                 if let Some(e) = out.harness_error() {
                     trace.harness_errors.push(format!("step {i}: {e}"));
+                }
+                if let Some(limit) = &disk_limited {
+                    // the full disk "fired" when this start could not do what it set out to do
+                    let failed = out.exit != (Exit::Code { code: 0 }) || builds(&out).iter().any(|b| b.error.is_some());
+                    if failed && out.fault_fired().is_none() {
+                        out.events.push(Event::FaultFired { kind: "disk-full".into(), point: limit.clone(), k: 0 });
+                    }
                 }
                 Some(out)
             }
@@ -208,6 +305,9 @@ pub fn run_history(ctx: &Ctx, h: &History, work: &Path, rotate: usize) -> Trace 
         let dir = dirstate::inspect(&xdg, ctx.side(alt).0);
         trace.steps.push(StepOut { dir, child, alt });
     }
+    if own_disk {
+        tmpfs_umount(&xdg.root);
+    }
     let _ = std::fs::remove_dir_all(work);
     trace
 }
@@ -233,7 +333,7 @@ pub fn answers(c: &ChildOut, slot: usize) -> Vec<&Answer> {
 
 /// A start counts as disturbed when a kill or a non-retryable failure was actually injected.
 pub fn disturbed(c: &ChildOut) -> bool {
-    matches!(c.fault_fired(), Some((kind, _, _)) if kind == "kill" || kind == "fail" || kind == "sys-kill" || kind == "sys-error")
+    matches!(c.fault_fired(), Some((kind, _, _)) if kind == "kill" || kind == "fail" || kind == "sys-kill" || kind == "sys-error" || kind == "disk-full")
 }
 
 fn fmt_res(r: &[Res]) -> String {
